@@ -32,6 +32,32 @@ fn check<D: Dataset + MutableDataset + Default>(name: &str, qs: &[Q]) where <D a
     let want1 = trip(&mut set.iter().filter(|q| q.0 == 1).map(|q| (q.0, q.1, q.2)));
     let got1 = trip(&mut d.union_graph().triples_matching([t(1)], Any, Any).map(|x| { let x = x.unwrap(); (num(&x.s()), num(&x.p()), num(&x.o())) }));
     if got1 != want1 { fail("union_graph().triples_matching([1],Any,Any)", qs, format!("{} got {:?} want {:?}", name, got1, want1)); }
+    // contains() of every view agrees with its own enumeration (and hence with filtering the store)
+    {
+        let all_triples: Vec<(u8, u8, u8)> = vec![(1, 1, 1), (1, 1, 2), (2, 1, 1), (2, 1, 2), (1, 2, 1)];
+        for tr in &all_triples {
+            let wu = set.iter().any(|q| (q.0, q.1, q.2) == *tr);
+            let gu = d.union_graph().contains(t(tr.0), t(tr.1), t(tr.2)).unwrap();
+            if gu != wu { fail("union_graph().contains()", qs, format!("{} {:?}: got {} want {}", name, tr, gu, wu)); }
+            for gi in 0..3u8 {
+                let wg = set.iter().any(|q| (q.0, q.1, q.2) == *tr && q.3 == gi);
+                let gg = DatasetGraph::new(&d, g(gi)).contains(t(tr.0), t(tr.1), t(tr.2)).unwrap();
+                if gg != wg { fail("graph(g).contains()", qs, format!("{} g={} {:?}: got {} want {}", name, gi, tr, gg, wg)); }
+                let gg0 = g(gi);
+                for (sel, selname, accept) in [
+                    (vec![None, gg0.as_ref()], "[default, g]", Box::new(move |x: u8| x == 0 || x == gi) as Box<dyn Fn(u8) -> bool>),
+                    (vec![None], "[default]", Box::new(|x: u8| x == 0)),
+                    (vec![gg0.as_ref()], "[g]", Box::new(move |x: u8| x == gi)),
+                ] {
+                    let wp = set.iter().any(|q| (q.0, q.1, q.2) == *tr && accept(q.3));
+                    let v = PartialUnionGraph::new(&d, &sel[..]);
+                    let gp = v.contains(t(tr.0), t(tr.1), t(tr.2)).unwrap();
+                    let ge = v.triples().any(|x| { let x = x.unwrap(); (num(&x.s()), num(&x.p()), num(&x.o())) == *tr });
+                    if gp != wp || ge != wp { fail("partial_union_graph(sel).contains()", qs, format!("{} sel={} g={} {:?}: contains {} enumeration {} want {}", name, selname, gi, tr, gp, ge, wp)); }
+                }
+            }
+        }
+    }
     // projections of the union graph are those of its triples (graph names are not terms of the union graph)
     {
         let want_iris: BTreeSet<u8> = set.iter().flat_map(|q| [q.0, q.1, q.2]).collect();
